@@ -58,7 +58,11 @@ def vf : P String := do
   let m ← pomdpP; P.bar
   let v ← vfP; P.bar
   let bqs ← P.list bqP; P.bar
-  let status ← P.bool; let seq ← pairsP; P.eof
+  let status ← P.bool; let seq ← pairsP; P.bar
+  let ioStatus ← P.nat
+  let nQ ← P.nat
+  let hqs ← P.rep (do let bi ← P.nat; let h ← P.nat; let a ← P.nat; let id ← P.nat; let pok ← P.bool; pure (bi, h, a, id, pok)) nQ
+  P.eof
   let H := v.length - 1
   let top := vlist v H
   let vd : Verdict := { tag := s!"{comp} H{H}" }
@@ -87,13 +91,34 @@ def vf : P String := do
         let ex := execFast (cutModel m) v H q.id q.b
         vd.failIf (!(closeQ tol ex mine)) s!"{comp} exec_return_mismatch exec={qstr ex} promised={qstr mine}"
       else vd) vd
+  -- (4) the Policy at EVERY stored horizon h ≤ H: sampleAction(b, h) names an entry of horizon h, reports its action, that entry
+  --     attains max_id b·values of horizon h, getActionProbability is the indicator of that action, and executing the h-step plan
+  --     from it earns b·values (policy_episode); a Policy loaded back from a stream must behave identically
+  let vd := vd.failIf (ioStatus == 2) "Policy load_failed"
+  let vd := hqs.foldl (fun (vd : Verdict) (q : Nat × Nat × Nat × Nat × Bool) =>
+      let (bi, h, a, id, pok) := q
+      let bl := (bqs.getD bi ⟨[], 0, 0, 0⟩).b
+      let b := bfun bl
+      let lvl := vlist v h
+      if h > H || bi ≥ bqs.length then vd.failIf true s!"Policy bad_query h={h}" else
+      if id ≥ lvl.length then vd.failIf true s!"Policy id_out_of_range h={h} id={id}" else
+      let e := entryAt lvl id
+      let vd := vd.failIf (a != e.action) s!"Policy action_mismatch h={h} a={a} entry={e.action}"
+      let vd := vd.failIf (!pok) s!"Policy action_probability_wrong h={h}"
+      let mine := dot m.S b (val e)
+      let best := envV m.S lvl b
+      let vd := vd.failIf (!(closeQ tol mine best) && mine < best) s!"Policy first_action_not_argmax h={h} got={qstr mine} max={qstr best}"
+      if shapeOK && h < H then
+        let ex := execFast (cutModel m) v h id bl
+        vd.failIf (!(closeQ tol ex mine)) s!"{comp} exec_return_mismatch h={h} exec={qstr ex} promised={qstr mine}"
+      else vd) vd
   -- statistics only: exact agreement, model's own argmax, greedy w.r.t. the look-ahead on the previous envelope
   let exact := match v with | [] => false | v0 :: rest => consistentFrom eqQ m v0 rest
   let zb := (List.range m.A).all (fun a => (List.range m.O).all (fun o => possible m a o ||
               (List.range m.S).all (fun s => decide (m.Ob a s o = 0))))
   let sameArg := bqs.all (fun q => (sampleActionB m v (bfun q.b) H) == (q.a, q.id))
   let vd := { vd with tag := vd.tag ++ (if exact then " exact" else " rounded") ++ (if sameArg then "" else " tie") ++ (if zb then "" else " subthreshold")
-                        ++ (if H == 0 then " trivial" else "") }
+                        ++ (if ioStatus == 1 then " loaded" else "") ++ (if H == 0 then " trivial" else "") }
   return vd.render
 
 /-- multiset inclusion of whole entries: `out` can be obtained from `inp` by deleting entries -/
@@ -270,8 +295,8 @@ def execBad (m : Pomdp) (v : VF) (bs : List (List Rat)) : Option String :=
     if closeQ tol ex pr then none else some s!"exec_return_mismatch exec={qstr ex} promised={qstr pr}")
 
 /-- verdict of a whole-run comparison -/
-def wholeRun (comp : String) (m : Pomdp) (bs : List (List Rat)) (v mv : VF) (cond : Cond) : String :=
-  let vd : Verdict := { tag := comp.toLower }
+def wholeRun (comp : String) (m : Pomdp) (bs : List (List Rat)) (v mv : VF) (cond : Cond) (tag : String := comp.toLower) : String :=
+  let vd : Verdict := { tag := tag }
   let bad := match v with | [] => none | v0 :: rest => firstBad m 1 v0 rest
   let vd := match bad with
     | some (hh, what, dev) => vd.failIf true s!"{comp} {what} horizon={hh} dev={qstr dev}"
@@ -376,6 +401,37 @@ def pbvi : P String := do
   let cond := condRun (fun prev c => condPbviStep m rtOf prev bs c) mv
   return wholeRun "PBVI" m bs v mv cond
 
+/-- `pbviw pomdp explicit nB beliefs h | v0 | vf` : PBVI warm start against `pbviRunFrom`.  Clauses on the implementation's own
+    output (`pbvi_warm_levels`): the warm start is kept verbatim as a prefix, `h` lists are appended, and from the warm
+    start's last list upward the result is a plan over its links (shape, one-step derivation, execution). -/
+def pbviw : P String := do
+  let m ← pomdpP; let expl ← P.bool; let bs ← P.list P.qs; let h ← P.nat; P.bar
+  let v0 ← vfP; P.bar
+  let v ← vfP; P.eof
+  let vd : Verdict := { tag := "pbviw" }
+  if v0.isEmpty || (vlist v0 (v0.length - 1)).isEmpty then return "skip empty_warm_start" else
+  let k := v0.length - 1
+  let vd := vd.failIf (v.take v0.length != v0) "PBVI warm_start_not_kept"
+  let vd := vd.failIf (v.length != v0.length + h) s!"PBVI warm_start_levels got={v.length} want={v0.length + h}"
+  if !vd.fails.isEmpty then return vd.render else
+  let vs := v.drop k
+  let mvs := if expl then (pbviRunFrom m (bs.map bfun) v0 h).drop k else vs
+  let exact := match vs with | [] => false | w0 :: rest => consistentFrom eqQ m w0 rest
+  let rtOf := fun (bl : List Rat) => exact && dyadicList bl
+  let cond := if expl then condRun (fun prev c => condPbviStep m rtOf prev bs c) mvs else {}
+  -- beliefs for the execution clause: the explicit list, or the corners
+  let ebs := if expl then bs else (List.range m.S).map (fun s => (List.range m.S).map (fun i => if i = s then (1 : Rat) else 0))
+  return wholeRun "PBVI" m ebs vs mvs cond (if expl then "pbviw" else "pbviw generated_beliefs")
+
+/-- `mk S A O | vf | vf` : `makeValueFunction(S)` and the value function of `Policy(S, A, O)` are the model's `zeroVF S` -/
+def mk : P String := do
+  let S ← P.nat; let _A ← P.nat; let _O ← P.nat; P.bar
+  let v1 ← vfP; P.bar; let v2 ← vfP; P.eof
+  let vd : Verdict := { tag := "mk" }
+  let vd := vd.failIf (v1 != zeroVF S) "makeValueFunction not_the_zero_entry"
+  let vd := vd.failIf (v2 != zeroVF S) "Policy default_value_function_wrong"
+  return vd.render
+
 def handle (toks : List String) : String :=
   let r := match toks with
     | "vf" :: rest => P.run vf rest
@@ -385,6 +441,8 @@ def handle (toks : List String) : String :=
     | "pj" :: rest => P.run pj rest
     | "cb" :: rest => P.run cb rest
     | "pbvi" :: rest => P.run pbvi rest
+    | "pbviw" :: rest => P.run pbviw rest
+    | "mk" :: rest => P.run mk rest
     | "wv" :: rest => P.run wv rest
     | "perseus" :: rest => P.run perseus rest
     | "ls" :: rest => P.run ls rest
